@@ -4,13 +4,18 @@
    state of Cli (i.e. reachable by Advance / ArgReject / VelaReject / WriteOk with
    AllowCrash = FALSE) and whether it respects what the generator promised about
    the invocation (valid options => no usage error; fallback-only model => no
-   rejection).  Violations are accumulated so that one run lists all of them. *)
+   rejection).  Violations are accumulated so that one run lists all of them.
+   Corner lattices (CliCorners.tla): an event of a corner model names the records it was built from (field corner, a
+   sequence of CliCorners!Key strings).  When the batch is declared to carry the lattice (environment CORNER_TIER /
+   CORNER_SEED, the values the enumeration ran with) the plan is recomputed here and the records of the plan that no
+   event carries are printed (COVER): the harness treats a non-empty set as broken machinery, not as a verdict. *)
 EXTENDS Integers, Sequences, FiniteSets, Json, IOUtils, TLC
 
 Trace == ndJsonDeserialize(IOEnv.TRACE_FILE)
 
 VARIABLES l, viol, phase, status, wrote, diag, tb
 C == INSTANCE Cli WITH AllowCrash <- FALSE
+K == INSTANCE CliCorners WITH rec <- l
 
 Ev == Trace[l]
 Observed(e) == [status |-> e.status, wrote |-> e.wrote, diag |-> e.diag, tb |-> e.tb]
@@ -47,6 +52,10 @@ Next == /\ l <= Len(Trace)
 Spec == Init /\ [][Next]_<<l, viol, phase, status, wrote, diag, tb>>
 
 Consumed == TLCGet("stats").diameter = Len(Trace) + 1
-Report == l = Len(Trace) + 1 => PrintT(<<"VERDICT", ToJson(viol)>>)
+CornersOf(e) == IF "corner" \in DOMAIN e THEN {e.corner[j] : j \in 1..Len(e.corner)} ELSE {}
+Carried == UNION {CornersOf(Trace[j]) : j \in 1..Len(Trace)}
+Uncovered == IF "CORNER_TIER" \in DOMAIN IOEnv THEN K!Required \ Carried ELSE {}
+Report == l = Len(Trace) + 1 => /\ PrintT(<<"VERDICT", ToJson(viol)>>)
+                                /\ PrintT(<<"COVER", ToJson(Uncovered)>>)
 TerminalNonEmpty == Cardinality(Terminal) >= 3
 =============================================================================
